@@ -14,23 +14,20 @@ LEAN_MODULES = ["GoaktVerif.Props.C31"]
 THEOREMS = [
     "GoaktVerif.C31.C31_mon_is_log",
     "GoaktVerif.C31.base_step",
-    "GoaktVerif.C31.C31_overlap_direct_passivation",
-    "GoaktVerif.C31.C31_message_behind_pill_not_received",
-    "GoaktVerif.C31.C31_receive_after_direct_deactivate",
-    "GoaktVerif.C31.C31_double_deactivate",
-    "GoaktVerif.C31.C31_refuted",
-    "GoaktVerif.C31.C31_activate_first",
-    "GoaktVerif.C31.C31_inturn",
     "GoaktVerif.C31.ginv_step",
-    "GoaktVerif.C31.C31_partial",
+    "GoaktVerif.C31.C31_holds",
+    "GoaktVerif.C31.C31_activate_first",
     "GoaktVerif.C31.C31_send_after_deactivation",
+    "GoaktVerif.C31.C31_passivation_during_receive_goes_through_mailbox",
+    "GoaktVerif.C31.C31_direct_deactivation_owns_the_turn",
+    "GoaktVerif.C31.C31_message_behind_pill_not_received",
 ]
 INPKG = ["actor/zz_verif_c06.go"]
 HARNESS = "c06"
 TIMEOUT = 1500
 MANIFEST = {
     "level_text": "Kernel-checked theorems over a small-step model of one grain process (actor/grain_pid.go activate, deactivate, receive, runTurn/dispatchOne, handlePoisonPill, handlePassivationPill, passivationTry; actor/grain_engine.go ensureGrainProcess) for ANY pool of senders, PoisonPill senders (user or system shutdown) and passivation attempts and ANY schedule: the full property is refuted with machine-checked witnesses (C31_refuted; C31_overlap_direct_passivation, C31_receive_after_direct_deactivate, C31_double_deactivate; the pill-queue defect C31-F2 was fixed by 6dc1e0c: regression theorem C31_message_behind_pill_not_received); OnActivate completes before every OnReceive on all schedules (C31_activate_first); when every deactivation runs inside the turn (reentrancy-capable grain or no passivation attempt) ALL FOUR clauses hold on all schedules (C31_inturn); all four clauses hold on every schedule in which the manager's direct deactivation only starts while no turn is in progress and no turn starts while it runs (C31_partial, inductive invariant ginv_step); once deactivate has removed the process from the grain map every later send leaves for a fresh process and the removal is permanent (C31_send_after_deactivation). Witnesses are replayed deterministically on the real system and the spec monitor judges every grain instance's hook history.",
-    "level_note": "Partial: false of the current code (finding C31-F1; C31-F2 fixed). `exactly once` is proved as `at most once` (that every active grain IS deactivated at system stop is C17's). The dispatch turn is abstract (C01/C02 assumed); the response queue / StashNonReentrant pause, timers, failing OnActivate/OnDeactivate and re-activation of the same process are not modelled. Sends in the scenario harness use the Tell half of localSend split at the hand-over point (in-package copy of the same calls) so that 'enqueued' is observable; the real TellGrain is exercised by the `T`/`PILL` actions and by C17. Tie at gate granularity; racy scripts are judged by the monitor only.",
+    "level_note": "Partial: false of the current code (C31-F1 and C31-F2 fixed). `exactly once` is proved as `at most once` (that every active grain IS deactivated at system stop is C17's). The dispatch turn is abstract (C01/C02 assumed); the response queue / StashNonReentrant pause, timers, failing OnActivate/OnDeactivate and re-activation of the same process are not modelled. Sends in the scenario harness use the Tell half of localSend split at the hand-over point (in-package copy of the same calls) so that 'enqueued' is observable; the real TellGrain is exercised by the `T`/`PILL` actions and by C17. Tie at gate granularity; racy scripts are judged by the monitor only.",
     "technique": "Lean 4 inductive invariants over an interleaving model + deterministic gated-scenario differential against the real actor system + spec monitor on recorded hook histories",
 }
 TRUSTED = [
@@ -227,18 +224,7 @@ def classify(case, impl, why):
         return None
     found = []
     for tok in why.split()[1:]:
-        m = re.fullmatch(r"c([1-4]):([a-z+:A-Za-z0-9_.()*]*)", tok)
-        if not m:
-            return None
-        clause, vias = m.group(1), m.group(2).split("+")
-        if clause == "4" and all(v == "pass" for v in vias):
-            found.append("C31-F1")
-        elif clause == "2" and "pass" in vias and all(v in ("pass", "pill", "ppill") for v in vias):
-            found.append("C31-F1")
-        elif clause == "3" and vias[-1] == "pass":
-            found.append("C31-F1")
-        else:
-            return None
+        return None  # no open finding is left for C31: every verdict item is a violation
     return found[0] if found else None
 
 
